@@ -22,6 +22,17 @@ package head
 //@   ensures result1 == nil ==> str(result0) == idOfKey(pubOfBytes(content(s.Pubkey)))
 //@   ensures len(s.Sig) == 0 || len(s.Pubkey) == 0 ==> result1 != nil
 //@   ensures result1 != nil ==> str(result0) == str("")
+// ... and for no other reason is a head rejected (what NewSignedHead produces always validates): no
+// signature, no key, a key that does not unmarshal or has no peer ID, or a signature that does not verify.
+//@   ghost keyErr := false
+//@   ghost verErr := false
+//@   ghost verOK := true
+//@   ghost idErr := false
+//@   at call UnmarshalPublicKey#1: after ghost keyErr := result1 != nil
+//@   at call Verify#1: after ghost verErr := result1 != nil
+//@   at call Verify#1: after ghost verOK := result0
+//@   at call IDFromPublicKey#1: after ghost idErr := result1 != nil
+//@   ensures-local result1 != nil ==> len(s.Sig) == 0 || len(s.Pubkey) == 0 || keyErr || verErr || !verOK || idErr
 
 //@ func (*SignedHead).Sign
 //@   property C03
